@@ -16,7 +16,10 @@ RULE = ("layouts of 1-16 keep services with 0-3 mounts each (random stream), a '
         "desired 2-4 with about that many replicas sitting on multi-mount servers with blank device ids, pulls "
         "pending, read-only replica holders, one or two classes), a multi-block stream (op cs: 1-4 blocks gathered by "
         "the real BlockStateMap from index entries and 0-3 collections each, either arrival order, run through "
-        "ComputeChangeSets and collectStatistics) plus an exhaustive product (thorough; sampled in quick) over "
+        "ComputeChangeSets and collectStatistics), a whole-sweep stream (op gs: the real Balancer.Run against a stub cluster "
+        "generated from the case: keep_services list, /mounts, index text with timestamps in ns or seconds, discovery "
+        "document, paged collections list honouring select, PUT /trash and /pull; 1-4 blocks, 0-5 collections, commit flags) "
+        "plus an exhaustive product (thorough; sampled in quick) over "
         "<=3 services x <=2 mounts of structure x device sharing x class assignment x replica subset x desired "
         "replication 0-3 per class (thorough); read-only flags on mounts and services, replication 1-3 (rarely "
         "<=0), device ids blank/unique/shared across servers, mtimes old/new/colliding, random block hashes so "
@@ -28,7 +31,8 @@ ASSUMPTIONS = [
     "desired replication for a class that no mount offers counts like any other: the block is then under-replicated for that class (nothing may be trashed) and it is referenced (lost if it has no replica)",
     "mount identity is pointer identity in Go; the model uses one slot per (service index, mount index)",
 ]
-TRUSTED = ["executable MD5 in Lean (ArvVerif/Base/MD5.lean) for rendezvous ranks and rendezvousLess, compared with Go crypto/md5 through every case",
+TRUSTED = ["the stub cluster of op gs (zz_verif_c05_run_test.go): it returns only the selected attributes of a collection, as the API server (ApplicationController) and the controller router (applySelectParam) do; one store per DeviceID",
+           "executable MD5 in Lean (ArvVerif/Base/MD5.lean) for rendezvous ranks and rendezvousLess, compared with Go crypto/md5 through every case",
            "the physical-device oracle in harness/props/C05.py (written from the property text)"]
 
 DRIVERS = {"kb": {"kind": "gotest", "pkg": "services/keep-balance", "test": "TestVerifC05", "min_chunk": 2000}}
@@ -1057,7 +1061,7 @@ def generate(rng, tier):
             cases.append(_concentrated_case(rng))
         for _ in range(60000):
             cases.append(_cs_case(rng))
-        for _ in range(40000):
+        for _ in range(10000):
             cases.append(_gs_case(rng))
         # exhaustive over structure x sharing x classes x replica subset x desired for <= 5 mounts
         # (454 502 combinations), every 3rd combination (offset by the seed) for 6 mounts (1 217 360);
